@@ -7017,6 +7017,11 @@ impl<'a> Tyck<'a> for TyEnvT<su::TermId> {
                     res_body_ty,
                     &self.info,
                 );
+                // a monadic block is a synthesising form: in analysis mode its type is
+                // compared with the expected one like that of any other synthesised term
+                if let Switch::Ana(ana) = switch {
+                    Lub::lub_k(AnnId::Type(res_body_ty), ana, tycker)?;
+                }
 
                 TermAnnId::Compu(res_body, res_body_ty)
             }
